@@ -64,6 +64,7 @@ def plan(tier, seed):
     specs = [{'kind': 'exhaustive', 'k': k, 'i': i} for i in range(k)]
     specs += [{'kind': 'utf8', 'sample': i} for i in range(len(utf8_samples()))]
     specs.append({'kind': 'truncated'})
+    specs.append({'kind': 'overlap'})
     specs.append({'kind': 'bigfile'})
     specs += [{'kind': 'random', 'i': i, 'n': 150 if tier == 'quick' else 1500} for i in range(4)]
     return specs
@@ -140,6 +141,37 @@ def run_shard(spec, res):
             if out['bulk_errors']:
                 res.violation('valid-utf8-rejected-by-bulk', 'bulk reader rejected valid UTF-8 %r' % text, {'text': text})
             res.sample({'utf8_sample': text, 'bytes': n, 'partitions': len(parts) if parts else 2 ** (n - 1)})
+        elif kind == 'overlap':
+            # two iterators alive at the same time (a JOIN in stream mode): A's first chunk ends at every byte offset - also inside a multi-byte
+            # character and inside a CRLF pair - when B is created and read
+            samples = [s for s in utf8_samples()]
+            cases, meta = [], []
+            for ta in samples:
+                da = ta.encode('utf-8')
+                for tb in (samples[0], 'x,y\r\né,€\r\n'):
+                    db = tb.encode('utf-8')
+                    for cut in range(1, len(da)):
+                        for policy in ('quoted_rfc', 'simple'):
+                            base = {'encoding': 'utf-8', 'delim': ',', 'policy': policy, 'has_header': False, 'comment_prefix': None}
+                            cases.append({'a': dict(base, bytes_hex=da.hex(), chunks=[cut, len(da) - cut]), 'b': dict(base, bytes_hex=db.hex(), chunks=[max(1, len(db) // 2), len(db) - max(1, len(db) // 2)])})
+                            meta.append((ta, tb, cut, policy))
+            bulk = {}
+            for text in set([m[0] for m in meta] + [m[1] for m in meta]):
+                for policy in ('quoted_rfc', 'simple'):
+                    o = node.call({'op': 'read', 'bytes_hex': text.encode('utf-8').hex(), 'chunks': None, 'encoding': 'utf-8', 'delim': ',', 'policy': policy, 'has_header': False, 'comment_prefix': None})
+                    bulk[(text, policy)] = (o['records'], o['error'] and o['error']['cls'])
+            outs = node.call({'op': 'overlap_batch', 'cases': cases})['results']
+            for (ta, tb, cut, policy), o in zip(meta, outs):
+                res.evaluations += 1
+                res.count('overlap_runs')
+                res.distinct_disjoint += 1
+                for side, text in (('a', ta), ('b', tb)):
+                    got = (o[side]['records'], o[side]['error'] and o[side]['error']['cls'])
+                    want = bulk[(text, policy)]
+                    if o[side].get('stuck') or o.get('driver_exception') or (got != want and not (want[1] is not None and got[1] == want[1])):
+                        res.violation('overlapping-iterators-differ-from-bulk', 'two stream iterators alive at once (%s): A = %r cut after byte %d, B = %r: iterator %s -> %r (stuck %s, driver %r), bulk -> %r' % (
+                            policy, ta, cut, tb, side.upper(), got, o[side].get('stuck'), o.get('driver_exception'), want), {'leg': 'overlap', 'a': ta, 'b': tb, 'cut': cut, 'policy': policy})
+            res.sample({'overlap': 'A cut at every byte offset, B read in between', 'cases': len(cases)})
         elif kind == 'truncated':
             # truncated multi-byte sequences at end of stream: both modes must reject (same error class)
             cases = []
@@ -194,7 +226,7 @@ def run_shard(spec, res):
                         left -= k
                     parts.append(lens)
                 cases.append({'bytes_hex': data.hex(), 'encoding': 'utf-8', 'delim': rng.choice([',', ',', ' ', '""'[:0] or ';']), 'policy': rng.choice(POLICIES),
-                              'comment_prefix': rng.choice([None, '#']), 'has_header': rng.random() < 0.3, 'partitions': parts})
+                              'comment_prefix': rng.choice([None, '#']), 'has_header': rng.random() < 0.3, 'partitions': parts, 'async_delivery': rng.random() < 0.5})
                 res.nontrivial('rnd', text)
             out = node.call({'op': 'stream_vs_bulk', 'cases': cases})
             report(res, out, 'random')
@@ -208,9 +240,9 @@ def run_shard(spec, res):
 
 def summarize(tier, seed, m):
     return {
-        'rule': 'every input of 1..%d bytes over {a, quote, comma, LF, CR, #} x all 2^(n-1) chunkings x policies {simple, quoted, quoted_rfc} x comment prefix {none, #} (utf-8 and binary), header on for n <= 4; %d UTF-8 samples with 2-, 3-, 4-byte characters and a leading BOM cut at every byte (all chunkings for samples up to 14 bytes in the quick tier / 18 bytes in the thorough tier; for longer samples every 1- and 2-cut chunking (thorough: also 3-cut and 20000 random chunkings) and byte-by-byte delivery); truncated / invalid sequences (both modes must reject); files around the 64 KiB default chunk size through fs.createReadStream; random longer inputs. distinct_nontrivial = (input, configuration) pairs containing a line break, a quote or a multi-byte character.' % (MAXLEN[tier], len(utf8_samples())),
+        'rule': 'every input of 1..%d bytes over {a, quote, comma, LF, CR, #} x all 2^(n-1) chunkings x policies {simple, quoted, quoted_rfc} x comment prefix {none, #} (utf-8 and binary), header on for n <= 4; %d UTF-8 samples with 2-, 3-, 4-byte characters and a leading BOM cut at every byte (all chunkings for samples up to 14 bytes in the quick tier / 18 bytes in the thorough tier; for longer samples every 1- and 2-cut chunking (thorough: also 3-cut and 20000 random chunkings) and byte-by-byte delivery); truncated / invalid sequences (both modes must reject); two stream iterators alive at the same time (the first chunk of the first cut at every byte offset, the second read completely in between), each compared with the bulk reading of its own content; files around the 64 KiB default chunk size through fs.createReadStream; random longer inputs. distinct_nontrivial = (input, configuration) pairs containing a line break, a quote or a multi-byte character.' % (MAXLEN[tier], len(utf8_samples())),
         'exhaustive': True,
-        'required': ['stream_runs', 'bulk_runs', 'utf8_sample_runs', 'bigfile_runs', 'faithful_delivery_traces'],
+        'required': ['overlap_runs', 'stream_runs', 'bulk_runs', 'utf8_sample_runs', 'bigfile_runs', 'faithful_delivery_traces'],
         'assumptions': ['the bulk reader is the reference for what the file contains (C18 ties it to the Python reader)',
                         'a reader is reported stuck when its promise is still pending 200 event-loop turns after the stream ended (logical time)'],
     }
